@@ -111,6 +111,13 @@ class Session:
             self.chart = L.parse(self.text, want_tracks=pairs)
             self.twin = L.parse(self.text, want_tracks=pairs)
             ref = L.parse(self.text, want_tracks=pairs)
+            # charts of the SAME text that hold other sets of tracks (everything / nothing / the first track only):
+            # comparing with them is a read-only use like any other
+            self.others = [L.parse(self.text), L.parse(self.text, want_tracks=[])]
+            first = next(iter(spec.get("tracks") or {}), None)
+            if first is not None:
+                self.others.append(L.parse(self.text, want_tracks=[(L.Instrument[S.HEADERS[first][0]],
+                                                                     L.Difficulty[S.HEADERS[first][1]])]))
         except Exception as e:  # noqa: BLE001
             ctx.fail("chart-parses", f"well-formed chart rejected: {type(e).__name__}: {e}",
                      {"spec": spec, "ops": []})
@@ -227,6 +234,11 @@ class Session:
                 c != self.twin
                 c == c
                 c == 5
+                o = self.others[k % len(self.others)]
+                c == o
+                o == c
+                c != o
+                o != c
                 c.metadata == self.twin.metadata
                 c.sync_track == self.twin.sync_track
                 c.global_events_track != self.twin.global_events_track
